@@ -679,9 +679,14 @@ impl Node {
             #[cfg(edp_rs_verif)]
             edp_client::verif::sched_point("node::before_connection_lock").await;
             let mut conn_guard = conn.lock().await;
-            conn_guard
+            if let Err(e) = conn_guard
                 .send_to_name(reply_to_pid, Atom::new("rex"), call_request)
-                .await?;
+                .await
+            {
+                // the request never left: nobody will answer it
+                self.pending_rpcs.remove(&pid_str);
+                return Err(e.into());
+            }
             tracing::trace!("Message sent to rex");
         } else {
             tracing::error!("No connection found for node: {}", remote_node);
